@@ -82,6 +82,7 @@ func (f *Frame) havocCall(c *ssa.CallCommon, pos token.Pos) *Value {
 		}
 		e.havocComp(f.st, k)
 	}
+	e.havocEpoch(f.st)
 	f.havocAlloc()
 	rt := f.resultType(c)
 	if rt == nil {
@@ -174,8 +175,27 @@ func (f *Frame) callStatic(fn *ssa.Function, args, free []*Value, c *ssa.CallCom
 		f.errNonNil(name, r)
 		return r
 	}
+	if inRepo(fn) && len(fn.Blocks) > 0 {
+		if ws := e.mayWrite(fn); !ws.all {
+			e.note(fmt.Sprintf("call to %s without contract: computed frame (may-write analysis): %s", name, ws))
+			return f.havocCallSet(c, ws)
+		}
+	}
 	e.note(fmt.Sprintf("%s: call to %s without contract: everything havocked", e.qual(f.fn), name))
 	return f.havocCall(c, pos)
+}
+
+// havocCallSet: like havocCall, for a callee whose possible writes are known to lie within ws.
+func (f *Frame) havocCallSet(c *ssa.CallCommon, ws *writeSet) *Value {
+	f.e.havocSet(f.st, ws)
+	f.havocAlloc()
+	rt := f.resultType(c)
+	if rt == nil {
+		return &Value{Tuple: []*Value{}}
+	}
+	r := f.freshOf(f.id+".call", rt)
+	f.assumeAllocDeep(r)
+	return r
 }
 
 // errNonNil: constructors of error values return non-nil.
@@ -240,6 +260,13 @@ func (f *Frame) joinReturns(g *Frame, fn *ssa.Function) *Value {
 			}
 		}
 		st := &State{heap: map[string]string{}}
+		{
+			var sts []*State
+			for _, r := range g.rets {
+				sts = append(sts, r.st)
+			}
+			st.havocs = e.mergeEpoch(sts)
+		}
 		var ks []string
 		for k := range names {
 			ks = append(ks, k)
@@ -384,6 +411,11 @@ func (f *Frame) applyContract(fc *FuncContract, name string, fn *ssa.Function, s
 	// frame
 	switch {
 	case fc.Pure:
+	case !fc.HasMod && fn != nil && inRepo(fn) && len(fn.Blocks) > 0 && !e.mayWrite(fn).all:
+		ws := e.mayWrite(fn)
+		e.note(fmt.Sprintf("contract of %s has no modifies clause: computed frame (may-write analysis): %s", name, ws))
+		e.havocSet(f.st, ws)
+		f.havocAlloc()
 	case !fc.HasMod:
 		e.note(fmt.Sprintf("contract of %s has no modifies clause: everything havocked at its call sites", name))
 		for _, k := range sortedKeys(e.compSort) {
@@ -392,6 +424,7 @@ func (f *Frame) applyContract(fc *FuncContract, name string, fn *ssa.Function, s
 			}
 			e.havocComp(f.st, k)
 		}
+		e.havocEpoch(f.st)
 		f.havocAlloc()
 	default:
 		for _, m := range fc.Modifies {
@@ -506,6 +539,13 @@ func (f *Frame) dispatch(c *ssa.CallCommon, recv *Value, args []*Value, impls []
 		}
 	}
 	st := &State{heap: map[string]string{}}
+	{
+		var sts []*State
+		for _, b := range brs {
+			sts = append(sts, b.st)
+		}
+		st.havocs = e.mergeEpoch(sts)
+	}
 	var ks []string
 	for k := range names {
 		ks = append(ks, k)
